@@ -392,6 +392,21 @@ def r12_4(ctx):
 
 
 # ------------------------------------------------------------------ R12.5
+def _same_with_bhat(x_new, x_est):
+    """True: x_est is x_new with the weight vector b_hat in place of b (as trees, whatever the spelling of the sum); False: both
+    have the original subscripted form and differ elsewhere; None: no verdict"""
+    class Sub(ast.NodeTransformer):
+        def visit_Name(self, n):
+            return ast.copy_location(ast.Name(id='b', ctx=n.ctx), n) if n.id == 'b_hat' else n
+    e2 = Sub().visit(ast.parse(src(x_est), mode='eval').body)
+    a2 = ast.parse(src(x_new), mode='eval').body
+    if ast.dump(e2) == ast.dump(a2):
+        return True
+    if 'b[i]' in src(x_new) and 'b_hat[i]' in src(x_est):
+        return False
+    return None
+
+
 def r12_5(ctx):
     fi = ctx.prog.func(S + '.dirk_step')
     nf = ctx.prog.func(S + '.dirk_step.<locals>.newton_F')
@@ -417,9 +432,8 @@ def r12_5(ctx):
            and src(s.targets[0]) in ('x_est',)}
     xn = [s for s in own_nodes(fi.node) if isinstance(s, ast.Assign) and src(s.targets[0]) == 'x_new' and 'get_Minv' in src(s.value)]
     if xn and 'x_est' in asg:
-        a = src(xn[0].value).replace('b[i]', 'B[i]')
-        e = src(asg['x_est'].value).replace('b_hat[i]', 'B[i]')
-        ctx.decide('R12.5', fi.qual, 'x_est = ' + src(asg['x_est'].value), a == e, asg['x_est'], 'embedded solution is x_new with b_hat for b')
+        ctx.decide('R12.5', fi.qual, 'x_est = ' + src(asg['x_est'].value), _same_with_bhat(xn[0].value, asg['x_est'].value), asg['x_est'],
+                   'embedded solution is x_new with b_hat for b')
         ok = src(xn[0].value).replace(' ', '') == 'get_Minv()@(M@x+tau*sum((b[i]*Fy[i]foriinrange(s))))'
         ctx.decide('R12.5', fi.qual, 'x_new = ' + src(xn[0].value), ok or None, xn[0], 'M x_new = M x + tau sum b_i F(y_i)')
     sa = [s for s in own_nodes(fi.node) if isinstance(s, ast.Assign) and src(s.targets[0]) == 'is_sa']
@@ -433,9 +447,8 @@ def r12_5(ctx):
     ro = ctx.prog.func(S + '.rosenbrock_step')
     d = {src(s.targets[0]): s for s in own_nodes(ro.node) if isinstance(s, ast.Assign) and len(s.targets) == 1}
     if 'x_new' in d and 'x_est' in d:
-        a = src(d['x_new'].value).replace('b[i]', 'B[i]')
-        e = src(d['x_est'].value).replace('b_hat[i]', 'B[i]')
-        ctx.decide('R12.5', ro.qual, 'x_est = ' + src(d['x_est'].value), a == e, d['x_est'], 'embedded solution is x_new with b_hat for b')
+        ctx.decide('R12.5', ro.qual, 'x_est = ' + src(d['x_est'].value), _same_with_bhat(d['x_new'].value, d['x_est'].value), d['x_est'],
+                   'embedded solution is x_new with b_hat for b')
     checks = {
         'y_i': 'x+tau*sum((A[i,j]*ks[j]forjinrange(i)))',
         'w_i': 'sum((Gamma[i,j]*ks[j]forjinrange(i)))',
